@@ -183,6 +183,22 @@ func newWitness(w *world.World, p persistence.LogStatePersistence) (*witness.Wit
 	return witness.New(witness.Opts{Persistence: p, Signers: signers, KnownLogs: kl})
 }
 
+// newWitnessWithout is newWitness with one log missing from the configuration.
+func newWitnessWithout(w *world.World, p persistence.LogStatePersistence, name string) (*witness.Witness, error) {
+	signers, _, err := witnessSigners(w)
+	if err != nil {
+		return nil, err
+	}
+	kl, err := knownLogs(w)
+	if err != nil {
+		return nil, err
+	}
+	if l, ok := w.Logs[name]; ok {
+		delete(kl, l.ID)
+	}
+	return witness.New(witness.Opts{Persistence: p, Signers: signers, KnownLogs: kl})
+}
+
 // verdict names the outcome of Update in the model's vocabulary. Sentinel errors are compared by IDENTITY (==), which is
 // how the repository's callers switch on them (bastion handleUpdate): a wrapped sentinel is not the sentinel.
 func verdict(err error) string {
